@@ -3334,6 +3334,8 @@ class TensorDict(TensorDictBase):
         source = {}
         if len(keys):
             keys_to_select = None
+            # entries selected as a whole: a longer key below them must not narrow them
+            whole_keys = set()
             for key in keys:
                 if isinstance(key, str):
                     subkey = []
@@ -3349,9 +3351,16 @@ class TensorDict(TensorDictBase):
                         # delay creation of defaultdict
                         keys_to_select = defaultdict(list)
                     keys_to_select[key].append(subkey)
+                else:
+                    whole_keys.add(key)
 
             if keys_to_select is not None:
                 for key, val in keys_to_select.items():
+                    if key in whole_keys:
+                        if strict:
+                            # the nested keys must still exist
+                            source[key]._select(*val, strict=True, inplace=False)
+                        continue
                     source[key] = source[key]._select(
                         *val, strict=strict, inplace=inplace, set_shared=set_shared
                     )
